@@ -96,9 +96,15 @@ StepFails(t, s, k) ==
       equiv == h.has /\ put /\ EqualM(t.terms, h.v, w.v)
       \* named deviations, to classify a failure
       silent == d.n = 0
-      class == IF silent = (h.has /\ put /\ EqualMZ(t.terms, h.v, w.v, FALSE)) THEN "unset-zero-scalar-not-compared-by-tolerance"
-               ELSE IF silent = (st.has /\ put /\ EqualM(t.terms, st.v, w.v)) THEN "compared-with-stored-value-not-held-value"
-               ELSE IF silent = (st.has /\ put /\ EqualMZ(t.terms, st.v, w.v, FALSE)) THEN "compared-with-stored-value-not-held-value+unset-zero-scalar"
+      dA == silent = (h.has /\ put /\ EqualMZ(t.terms, h.v, w.v, FALSE))     \* held value, unset zero scalars skipped
+      dB == silent = (st.has /\ put /\ EqualM(t.terms, st.v, w.v))           \* previously stored value instead of held
+      dC == silent = (st.has /\ put /\ EqualMZ(t.terms, st.v, w.v, FALSE))   \* both
+      same == t.res = "val" \/ (h.has = st.has /\ h.v = st.v)                \* held = stored: B and C say nothing
+      class == IF same THEN (IF dA THEN "unset-zero-scalar-not-compared-by-tolerance" ELSE "other")
+               ELSE IF dA /\ ~dB THEN "unset-zero-scalar-not-compared-by-tolerance"
+               ELSE IF dB /\ ~dA THEN "compared-with-stored-value-not-held-value"
+               ELSE IF dA /\ dB THEN "unset-zero-scalar-or-compared-with-stored-value"
+               ELSE IF dC THEN "compared-with-stored-value-and-unset-zero-scalar"
                ELSE "other"
   IN
   IF k <= t.subs[s].at THEN {}
